@@ -78,7 +78,13 @@ func cmdSelftest(args []string) int {
 			for _, ln := range strings.Split(string(out), "\n") {
 				if strings.HasPrefix(ln, "VIOLATION") {
 					viols = append(viols, ln)
-					if strings.Contains(ln, r.expect) {
+					all := true
+					for _, frag := range strings.Split(r.expect, " && ") {
+						if !strings.Contains(ln, strings.TrimSpace(frag)) {
+							all = false
+						}
+					}
+					if all {
 						found = true
 					}
 				}
